@@ -41,6 +41,8 @@ pub struct RandomCfg {
     pub max_len: usize,
     pub classes: Vec<String>,
     pub close_at_end: bool,
+    /// deterministic sweeps: the frames to send, in order (bytes, class decided from the bytes by the harness)
+    pub fixed: Option<VecDeque<(Vec<u8>, String)>>,
 }
 
 #[derive(Debug)]
@@ -114,6 +116,11 @@ impl Shared {
                 return false;
             },
         };
+        self.peer_send_bytes(f, cls)
+    }
+
+    /// The peer produces exactly these bytes, which the harness classified as `cls`.
+    pub fn peer_send_bytes(&mut self, f: Vec<u8>, cls: &str) -> bool {
         let (verdict, _) = standalone(&self.mode, &f);
         // the connection-level oracle is what the stand-alone codec says about this very frame
         let ok = match (cls, &verdict) {
@@ -215,6 +222,8 @@ impl Shared {
                 Err(io::Error::new(io::ErrorKind::WouldBlock, "pending"))
             },
             "timeout" | "cancel" if is_async => Err(io::Error::new(io::ErrorKind::WouldBlock, "pending")),
+            // the driver has advanced the clock: tokio's timeout polls the read once more before it looks at the timer
+            "result" if is_async && st.s == "timeout" => Err(io::Error::new(io::ErrorKind::WouldBlock, "pending")),
             other => {
                 self.fail(format!(
                     "the code reads from the transport where the model's next step is {other}({},{}) [step {}]",
@@ -310,6 +319,20 @@ impl Shared {
     }
 
     pub fn random_send(&mut self) {
+        if let Some(q) = self.rcfg.fixed.as_mut() {
+            if let Some((bytes, cls)) = q.pop_front() {
+                let n = bytes.len();
+                self.skipped = None;
+                if self.peer_send_bytes(bytes, &cls) {
+                    self.ev(json!({"ev": "PeerSend", "n": n, "s": cls}));
+                } else {
+                    let why = self.skipped.clone().unwrap_or_default();
+                    self.ev(json!({"ev": "Skipped", "why": why}));
+                }
+            }
+            self.rcfg.frames_left = self.rcfg.fixed.as_ref().map(|q| q.len()).unwrap_or(0);
+            return;
+        }
         for _attempt in 0..50 {
             let cls = self.rcfg.classes[self.rng.gen_range(0..self.rcfg.classes.len())].clone();
             let len = match cls.as_str() {
@@ -388,7 +411,16 @@ impl Shared {
         .min(offered);
         // byte-level check of what leaves: the expected frame is the keep-alive reply or the user's frame
         if self.cur_out.is_none() {
-            let exp = if self.in_user_write { self.user_frame.take().unwrap_or_default() } else { self.pool.keepalive() };
+            // a new frame starts: the code offers it whole.  It must be the user's frame or a keep-alive
+            // reply; whether a reply is *allowed* here is decided by the specification, not by the harness.
+            let ka = self.pool.keepalive();
+            let exp = if self.in_user_write && self.user_frame.as_deref() != Some(buf) && buf == &ka[..] {
+                ka
+            } else if self.in_user_write {
+                self.user_frame.take().unwrap_or_default()
+            } else {
+                ka
+            };
             self.cur_out = Some((exp, 0));
         }
         let (exp, pos) = self.cur_out.clone().unwrap();
@@ -526,14 +558,14 @@ fn check_result(sh: &mut Shared, st: &Step, got: &Outcome) -> Result<(), String>
     let want_t = st.s.as_str();
     let want_id = st.n as usize;
     if got.t != want_t {
-        return Err(format!("read() returned {} ({}) where the model returns {}(frame {})", got.t, got.detail, want_t, want_id));
+        return Err(format!("read() returned {} where the model returns {}(frame {}) | detail: {}", got.t, want_t, want_id, got.detail));
     }
     match want_t {
         "pkt" => {
             if got.id != want_id {
                 return Err(format!(
-                    "read() returned packet {} (matches sent frame {}) where the model delivers frame {}",
-                    got.detail, got.id, want_id
+                    "read() returned a packet that matches sent frame {} where the model delivers frame {} | detail: {}",
+                    got.id, want_id, got.detail
                 ));
             }
         },
@@ -564,7 +596,7 @@ pub fn parse_steps(v: &Value) -> Vec<Step> {
 }
 
 fn nocfg() -> RandomCfg {
-    RandomCfg { seg: 4, p_err: 0.0, p_pend: 0.0, wseg: 2, frames_left: 0, max_len: 0, classes: vec![], close_at_end: false }
+    RandomCfg { seg: 4, p_err: 0.0, p_pend: 0.0, wseg: 2, frames_left: 0, max_len: 0, classes: vec![], close_at_end: false, fixed: None }
 }
 
 /// a user packet of the given encoded length
@@ -623,8 +655,8 @@ pub fn replay_blocking(pool: Arc<Pool>, verify: bool, steps: Vec<Step>, seed: u6
                     Some(w) if w.a == "result" => w,
                     other => {
                         return ReplayVerdict::Mismatch(format!(
-                            "read() returned {:?} where the model's next step is {:?} [step {}]",
-                            got, other, s.i
+                            "read() returned {} where the model's next step is {:?} [step {}] | detail: {:?}",
+                            got.t, other.map(|o| o.a), s.i, got
                         ))
                     },
                 };
@@ -761,8 +793,8 @@ pub fn replay_tokio(pool: Arc<Pool>, verify: bool, steps: Vec<Step>, seed: u64) 
                         Some(w) if w.a == "result" => w,
                         other => {
                             return ReplayVerdict::Mismatch(format!(
-                                "read() returned {:?} where the model's next step is {:?} [step {}]",
-                                got, other, s.i
+                                "read() returned {} where the model's next step is {:?} [step {}] | detail: {:?}",
+                                got.t, other.map(|o| o.a), s.i, got
                             ))
                         },
                     };
@@ -842,6 +874,12 @@ pub struct TraceCfg {
     pub seed: u64,
     pub writes: bool,
     pub cancels: bool,
+    pub wseg: Option<u8>,
+    pub noka: bool,
+    pub kaheavy: bool,
+    pub fixed: Option<VecDeque<(Vec<u8>, String)>>,
+    pub seg: Option<u8>,
+    pub p_err: Option<f64>,
 }
 
 fn result_event(o: &Outcome) -> Value {
@@ -849,18 +887,28 @@ fn result_event(o: &Outcome) -> Value {
 }
 
 fn random_cfg(rng: &mut StdRng, tc: &TraceCfg) -> RandomCfg {
-    let mut classes: Vec<String> = vec!["ka".into(), "tiny".into(), "pkt".into(), "pkt".into(), "pkt".into(), "bad".into()];
+    let mut classes: Vec<String> = vec!["tiny".into(), "pkt".into(), "pkt".into(), "pkt".into(), "bad".into()];
     classes.push("ver9".into());
     classes.push("verX".into());
+    if !tc.noka {
+        classes.push("ka".into());
+    }
+    if tc.kaheavy {
+        classes = vec!["ka".into(), "ka".into(), "tiny".into(), "pkt".into()];
+    }
+    let seg = rng.gen_range(0..6);
+    let p_err = if rng.gen_bool(0.5) { 0.0 } else { 0.05 };
+    let wseg = rng.gen_range(0..3);
     RandomCfg {
-        seg: rng.gen_range(0..6),
-        p_err: if rng.gen_bool(0.5) { 0.0 } else { 0.05 },
+        seg: tc.seg.unwrap_or(seg),
+        p_err: tc.p_err.unwrap_or(p_err),
         p_pend: if tc.flavor == "tokio" { 0.2 } else { 0.0 },
-        wseg: rng.gen_range(0..3),
-        frames_left: tc.frames,
+        wseg: tc.wseg.unwrap_or(wseg),
+        frames_left: tc.fixed.as_ref().map(|q| q.len()).unwrap_or(tc.frames),
         max_len: if rng.gen_bool(0.3) { 1020 } else { 255 },
         classes,
         close_at_end: true,
+        fixed: tc.fixed.clone(),
     }
 }
 
@@ -874,7 +922,7 @@ pub fn trace_blocking(pool: Arc<Pool>, tc: &TraceCfg) -> Vec<Value> {
     framed.verify_version(tc.verify);
     sh.lock().unwrap().ev(json!({"ev": "Reset", "transport": "stream", "flavor": "blocking", "verify": tc.verify, "mode": tc.mode}));
     let mut nwrites = 0usize;
-    for _round in 0..(tc.frames * 6 + 50) {
+    for _round in 0..(tc.frames * 6 + 50 + tc.fixed.as_ref().map(|q| q.len() * 3).unwrap_or(0)) {
         if tc.writes && rng.gen_bool(0.15) {
             let lens: Vec<usize> = pool.by_len.keys().copied().filter(|l| *l <= 255).collect();
             let len = lens[rng.gen_range(0..lens.len())];
@@ -927,7 +975,7 @@ pub fn trace_tokio(pool: Arc<Pool>, tc: &TraceCfg) -> Vec<Value> {
         let waker = futures_util::task::noop_waker();
         let mut cx = Context::from_waker(&waker);
         let mut nwrites = 0usize;
-        'outer: for _round in 0..(tc.frames * 8 + 50) {
+        'outer: for _round in 0..(tc.frames * 8 + 50 + tc.fixed.as_ref().map(|q| q.len() * 4).unwrap_or(0)) {
             if tc.writes && rng.gen_bool(0.15) {
                 let lens: Vec<usize> = pool.by_len.keys().copied().filter(|l| *l <= 255).collect();
                 let len = lens[rng.gen_range(0..lens.len())];
@@ -987,4 +1035,121 @@ pub fn trace_tokio(pool: Arc<Pool>, tc: &TraceCfg) -> Vec<Value> {
 #[allow(dead_code)]
 pub fn is_ka(f: &[u8]) -> bool {
     is_keepalive_frame(f)
+}
+
+// -------------------------------------------------------------------- deterministic sweeps
+/// class of a frame decided from its bytes only (independent of the code under test)
+pub fn class_from_bytes(f: &[u8]) -> &'static str {
+    if is_keepalive_frame(f) {
+        "ka"
+    } else if f[1] == 3 {
+        "tiny"
+    } else if f[1] == 2 {
+        if f.len() == 20 && f[18] == 9 {
+            "ver9"
+        } else {
+            "verX"
+        }
+    } else {
+        "pkt"
+    }
+}
+
+pub fn sweep_frames(pool: &Pool, what: &str) -> Vec<(Vec<u8>, String)> {
+    let mut v: Vec<(Vec<u8>, String)> = Vec::new();
+    let one_of_each: Vec<Vec<u8>> = pool.by_len.values().flat_map(|fs| fs.iter().cloned()).collect();
+    match what {
+        "tiny" => {
+            for subt in 0..30u8 {
+                for reqi in 0..=255u8 {
+                    let f = vec![crate::frames::size_byte(&pool.mode, 4), 3, reqi, subt];
+                    v.push((f, String::new()));
+                }
+            }
+            // every other kind, once with request id 0 and once with request id 1
+            for f in one_of_each.iter() {
+                for r in [0u8, 1u8] {
+                    let mut g = f.clone();
+                    g[2] = r;
+                    v.push((g, String::new()));
+                }
+            }
+        },
+        _ => {
+            let mut k = 0usize;
+            for ver in 0..=255u8 {
+                let p = insim::Packet::Ver(insim::insim::Ver {
+                    reqi: insim::identifiers::RequestId(ver.wrapping_mul(7)),
+                    insimver: ver,
+                    product: "S3".into(),
+                    ..Default::default()
+                });
+                if let Ok(f) = try_encode(&pool.mode, &p) {
+                    v.push((f, String::new()));
+                }
+                let other = one_of_each[k % one_of_each.len()].clone();
+                k += 1;
+                v.push((other, String::new()));
+            }
+            for f in one_of_each.iter() {
+                v.push((f.clone(), String::new()));
+            }
+        },
+    }
+    v.into_iter()
+        .filter(|(f, _)| {
+            // only frames the stand-alone codec accepts can be classified pkt/ka/tiny/ver; the rest is class bad
+            true && f.len() >= 4
+        })
+        .map(|(f, _)| {
+            let (verdict, _) = standalone(&pool.mode, &f);
+            let cls = match verdict {
+                Verdict::Pkt { .. } => class_from_bytes(&f).to_string(),
+                _ => "bad".to_string(),
+            };
+            (f, cls)
+        })
+        .collect()
+}
+
+/// Deterministic sessions over a fixed frame list, cut into sessions of at most `per` frames.
+pub fn sweep(what: &str, seed: u64, per: usize, half: bool) -> (Vec<Value>, Value) {
+    let mut events = Vec::new();
+    let mut nframes = 0usize;
+    let mut nsessions = 0usize;
+    for mode in ["C", "U"] {
+        let pool = Arc::new(Pool::new(mode));
+        let frames = sweep_frames(&pool, what);
+        for flavor in ["blocking", "tokio"] {
+            if half && ((mode == "C") != (flavor == "blocking")) {
+                continue; // quick tier: (compressed, blocking) and (uncompressed, tokio)
+            }
+            let verifies: Vec<bool> = if what == "tiny" { vec![false] } else { vec![true, false] };
+            for verify in verifies {
+                for (ci, chunk) in frames.chunks(per).enumerate() {
+                    nsessions += 1;
+                    nframes += chunk.len();
+                    let tc = TraceCfg {
+                        flavor: flavor.to_string(),
+                        mode: mode.to_string(),
+                        verify,
+                        frames: 0,
+                        seed: seed + ci as u64,
+                        writes: false,
+                        cancels: false,
+                        wseg: Some(if ci % 3 == 0 { 1 } else { 2 }),
+                        noka: false,
+                        kaheavy: false,
+                        fixed: Some(chunk.iter().cloned().collect()),
+                        seg: Some(5),
+                        p_err: Some(0.0),
+                    };
+                    let evs = if flavor == "blocking" { trace_blocking(pool.clone(), &tc) } else { trace_tokio(pool.clone(), &tc) };
+                    events.extend(evs);
+                }
+            }
+        }
+    }
+    let info = json!({"what": what, "frames": nframes, "sessions": nsessions, "events": events.len()});
+    (events, info)
 }
